@@ -489,7 +489,10 @@ pub fn run(seed: u64, shard: u64, sequences: usize, exotic: bool) -> Report {
                 .or_else(|| {
                     accepted
                         .iter()
-                        .filter(|a| a.ep.method == c.ep.method && a.ep.segs == c.ep.segs)
+                        .filter(|a| {
+                            a.ep.method == c.ep.method
+                                && (a.ep.segs == c.ep.segs || wildcard_shadow(std::slice::from_ref(&a.ep), &c.ep))
+                        })
                         .find_map(|a| exotic_tag(&a.ep))
                 })
                 .map(|t| format!("{t}:"))
